@@ -107,3 +107,11 @@ contract(f"{ENVF}::PrimaiteGymEnv.action_masks", props=["C11"], use_dispatch=["a
                                                " n_events() == old(n_events()) + 1 and event_kind(old(n_events())) == ev('mask')"
                                                " and event_arg(old(n_events()), 0) is self.game and event_arg(old(n_events()), 1) == self._agent_name)")],
          modifies=[], allocates=True)
+
+# ---- actions are routed: "a request produced from any agent action whose parameters name existing components is never 'unreachable'" -------
+# The request tree is assembled at run time from every component's _init_request_manager; which verb an action class sends and which routes
+# the addressed component registered meet only in a built game, so this clause is covered by a BOUNDED native sweep (never counted as proved):
+from pyvc.contracts import native_bounded  # noqa: E402
+native_bounded("C05", "action-routes", "bounded/action_routes.py",
+               "every registered action type x two nodes of every (node class, installed software) signature of the shipped data_manipulation and uc7 scenarios x up to 12 parameter choices naming components that exist on the node",
+               "the real form_request and the real Simulation.apply_request on a forked copy of the built game: the answer is not 'unreachable' whenever every component named on the request path exists")
